@@ -113,7 +113,7 @@ def search(prop, violations):
         got = o[3:]
         if is_inexact_text(got):
             if representable(e) and soft is None:
-                soft = {'session': s, 'observed': got, 'demanded': fmt(e), 'kind': 'inexact although the exact result is representable (may coincide with a listed known finding; the failed obligation above decides)'}
+                soft = {'weak': True, 'session': s, 'observed': got, 'demanded': fmt(e), 'kind': 'inexact although the exact result is representable (may coincide with a listed known finding; the failed obligation above decides)'}
             continue
         if got != fmt(e):
             return {'session': s, 'observed': got, 'demanded': fmt(e), 'kind': 'exact result differs from the true value'}
